@@ -281,9 +281,16 @@ def oracle(case, out):
     return None
 
 
-def shrink(case, still_bad):
-    """drop arcs / lower capacities while the case still fails"""
+def shrink(case, still_bad, budget=120):
+    """drop arcs / empty adjacency lists while the case still fails (at most `budget` re-runs)"""
     cur = json.loads(json.dumps(case))
+    calls = [0]
+    inner = still_bad
+
+    def still_bad(c):  # noqa: F811
+        calls[0] += 1
+        return calls[0] <= budget and inner(c)
+
     changed = True
     while changed:
         changed = False
@@ -427,8 +434,8 @@ def _corpus():
     return out
 
 
-def judge(case):
-    out = run_impl(case)
+def judge(case, timeout=1.5):
+    out = run_impl(case, timeout=timeout)
     return out, oracle(case, out)
 
 
@@ -447,6 +454,15 @@ def run(ctx: Ctx):
     n_adv = ctx.budget(350, 6000)
     n_rnd = ctx.budget(300, 6000)
 
+    # open known findings (none at the time of writing): replay their structured witnesses first
+    for f in ctx.open_findings():
+        for w in f.get("witness_cases", []):
+            wc = {"graph": w["graph"], "source": w["source"], "sink": w["sink"]}
+            wout, wbad = judge(wc, timeout=5.0)
+            ctx.evaluations += 1
+            if wbad:
+                ctx.known_hit(f["id"], f"witness still reproduces: {wbad}")
+
     cases = _corpus() + fixed_cases()
     n_fixed = len(cases)
     cases += [gen_layered(ctx.rng) for _ in range(n_lay)]
@@ -455,6 +471,9 @@ def run(ctx: Ctx):
 
     corr, spec, metas, spec_metas = [], [], [], []
     for k, case in enumerate(cases):
+        if len(ctx.violations) >= 3:
+            ctx.notes.append(f"stopped after 3 violations: {len(cases) - k} generated cases not run")
+            break
         out = run_impl(case)
         ctx.evaluations += 1
         bad = oracle(case, out)
